@@ -1,10 +1,12 @@
 import SupervisorModel.Model.Envelope
 import SupervisorModel.Model.Tick
+import SupervisorModel.Model.Notify
 /-
   C11 — event notifications tell the truth.  Property theorems only.
   Models: `Sv.Envelope` (header, registry, payload formatters) and `Sv.Tick`; both interpret
   tables/guards regenerated from /repo on every run (`Sv.Gen.Envelope`, `Sv.Gen.EventNames`,
-  `Sv.Gen.Tick`).
+  `Sv.Gen.Tick`); `Sv.Notify` (what is announced and when: group additions/removals, the output
+  flushed while a child is reaped, state changes) interprets the statement sequences of `Sv.Gen.Notify`.
 -/
 set_option linter.unusedSimpArgs false
 namespace Sv.Props.C11
@@ -481,5 +483,382 @@ example : Tick.run [0, 5119, 5120, 5120, 1024 * 61, 1024 * 3] =
     [[], [], [⟨25, 5, 5⟩], [], [⟨25, 5, 60⟩, ⟨26, 60, 60⟩], [⟨25, 5, 0⟩, ⟨26, 60, 0⟩]] := by decide
 
 end ticks
+
+/-! ### what is announced, and when -/
+section notify
+open Sv.Notify Sv.Gen.Notify
+
+/-- once a result is set (return or exception) the remaining statements do nothing -/
+theorem run_done (g : String) (fault : Option String) (u : Bool) (L : List Step) (s : G)
+    (h : s.res.isSome = true) : run g fault u L s = s := by
+  induction L with
+  | nil => rfl
+  | cons st r ih =>
+    have : step g fault u s st = s := by simp [step, h]
+    simp only [run, List.foldl_cons, this] at ih ⊢
+    exact ih
+
+theorem run_cons (g : String) (fault : Option String) (u : Bool) (st : Step) (L : List Step) (s : G) :
+    run g fault u (st :: L) s = run g fault u L (step g fault u s st) := rfl
+
+/-- how far an operation has got -/
+inductive Phase | untouched | changed | announced
+deriving DecidableEq
+
+def addedNote (g : String) : Note := ⟨"ProcessGroupAddedEvent", g, true⟩
+def removedNote (g : String) : Note := ⟨"ProcessGroupRemovedEvent", g, false⟩
+
+/-- the statement order that keeps PROCESS_GROUP_ADDED truthful -/
+def okAdd : Phase → List Step → Bool
+  | .changed, [] => false
+  | _, [] => true
+  | .untouched, .call _ :: r => okAdd .untouched r
+  | .announced, .call _ :: r => okAdd .announced r
+  | .untouched, .insertMade _ :: r => okAdd .changed r
+  | .changed, .notify cls :: r => cls == "ProcessGroupAddedEvent" && okAdd .announced r
+  | .untouched, .ret b :: _ => !b
+  | .announced, .ret b :: _ => b
+  | _, _ => false
+
+def AddRel (gs : List String) (g : String) : Phase → G → Prop
+  | .untouched, s => s = ⟨gs, [], none⟩
+  | .changed, s => s = ⟨gs ++ [g], [], none⟩
+  | .announced, s => s = ⟨gs ++ [g], [addedNote g], none⟩
+
+def AddGood (gs : List String) (g : String) (s : G) : Prop :=
+  (s.notes = [addedNote g] ∧ s.groups = gs ++ [g] ∧ s.res ≠ some (.ret false)) ∨
+  (s.notes = [] ∧ s.groups = gs ∧ s.res ≠ some (.ret true))
+
+theorem okAdd_sound (gs : List String) (g : String) (fault : Option String) (u : Bool) (hg : g ∉ gs) :
+    ∀ (L : List Step) (ph : Phase) (s : G), okAdd ph L = true → AddRel gs g ph s →
+      AddGood gs g (run g fault u L s) := by
+  intro L
+  induction L with
+  | nil =>
+    intro ph s hok hrel
+    cases ph <;> simp [okAdd] at hok <;> simp [AddRel] at hrel <;> subst hrel <;> simp [run, AddGood]
+  | cons st r ih =>
+    intro ph s hok hrel
+    rw [run_cons]
+    cases ph <;> cases st <;> simp [okAdd] at hok <;> simp [AddRel] at hrel <;> subst hrel
+    · -- untouched, call
+      rename_i f
+      by_cases hf : fault = some f
+      · have : step g fault u ⟨gs, [], none⟩ (.call f) = ⟨gs, [], some (.raised f)⟩ := by simp [step, hf]
+        rw [this, run_done _ _ _ _ _ (by simp)]
+        simp [AddGood]
+      · have : step g fault u ⟨gs, [], none⟩ (.call f) = ⟨gs, [], none⟩ := by simp [step, hf]
+        rw [this]
+        exact ih .untouched _ hok rfl
+    · -- untouched, insertMade
+      rename_i f
+      by_cases hf : fault = some f
+      · have : step g fault u ⟨gs, [], none⟩ (.insertMade f) = ⟨gs, [], some (.raised f)⟩ := by simp [step, hf]
+        rw [this, run_done _ _ _ _ _ (by simp)]
+        simp [AddGood]
+      · have : step g fault u ⟨gs, [], none⟩ (.insertMade f) = ⟨gs ++ [g], [], none⟩ := by simp [step, hf, hg]
+        rw [this]
+        exact ih .changed _ hok rfl
+    · -- untouched, ret false
+      subst hok
+      have : step g fault u ⟨gs, [], none⟩ (.ret false) = ⟨gs, [], some (.ret false)⟩ := by simp [step]
+      rw [this, run_done _ _ _ _ _ (by simp)]
+      simp [AddGood]
+    · -- changed, notify
+      obtain ⟨hc, hok⟩ := hok
+      subst hc
+      have : step g fault u ⟨gs ++ [g], [], none⟩ (.notify "ProcessGroupAddedEvent") = ⟨gs ++ [g], [addedNote g], none⟩ := by
+        simp [step, addedNote]
+      rw [this]
+      exact ih .announced _ hok rfl
+    · -- announced, call
+      rename_i f
+      by_cases hf : fault = some f
+      · have : step g fault u ⟨gs ++ [g], [addedNote g], none⟩ (.call f) = ⟨gs ++ [g], [addedNote g], some (.raised f)⟩ := by simp [step, hf]
+        rw [this, run_done _ _ _ _ _ (by simp)]
+        simp [AddGood]
+      · have : step g fault u ⟨gs ++ [g], [addedNote g], none⟩ (.call f) = ⟨gs ++ [g], [addedNote g], none⟩ := by simp [step, hf]
+        rw [this]
+        exact ih .announced _ hok rfl
+    · -- announced, ret true
+      subst hok
+      have : step g fault u ⟨gs ++ [g], [addedNote g], none⟩ (.ret true) = ⟨gs ++ [g], [addedNote g], some (.ret true)⟩ := by simp [step]
+      rw [this, run_done _ _ _ _ _ (by simp)]
+      simp [AddGood]
+
+/-- statements that change nothing and announce nothing (the name is already in the table) -/
+def okNoop : List Step → Bool
+  | [] => true
+  | .call _ :: r => okNoop r
+  | .ret b :: _ => !b
+  | _ => false
+
+theorem okNoop_sound (gs : List String) (g : String) (fault : Option String) (u : Bool) :
+    ∀ (L : List Step), okNoop L = true →
+      (run g fault u L ⟨gs, [], none⟩).notes = [] ∧ (run g fault u L ⟨gs, [], none⟩).groups = gs ∧
+      (run g fault u L ⟨gs, [], none⟩).res ≠ some (.ret true) := by
+  intro L
+  induction L with
+  | nil => intro _; simp [run]
+  | cons st r ih =>
+    intro hok
+    rw [run_cons]
+    cases st <;> simp [okNoop] at hok
+    · rename_i f
+      by_cases hf : fault = some f
+      · have : step g fault u ⟨gs, [], none⟩ (.call f) = ⟨gs, [], some (.raised f)⟩ := by simp [step, hf]
+        rw [this, run_done _ _ _ _ _ (by simp)]
+        simp
+      · have : step g fault u ⟨gs, [], none⟩ (.call f) = ⟨gs, [], none⟩ := by simp [step, hf]
+        rw [this]
+        exact ih hok
+    · subst hok
+      have : step g fault u ⟨gs, [], none⟩ (.ret false) = ⟨gs, [], some (.ret false)⟩ := by simp [step]
+      rw [this, run_done _ _ _ _ _ (by simp)]
+      simp
+
+/-- the statement order that keeps PROCESS_GROUP_REMOVED truthful -/
+def okRem : Phase → List Step → Bool
+  | .changed, [] => false
+  | _, [] => true
+  | .untouched, .retIfUnstopped b :: r => !b && okRem .untouched r
+  | .untouched, .call _ :: r => okRem .untouched r
+  | .announced, .call _ :: r => okRem .announced r
+  | .untouched, .delete :: r => okRem .changed r
+  | .changed, .notify cls :: r => cls == "ProcessGroupRemovedEvent" && okRem .announced r
+  | .untouched, .ret b :: _ => !b
+  | .announced, .ret b :: _ => b
+  | _, _ => false
+
+def RemRel (gs : List String) (g : String) : Phase → G → Prop
+  | .untouched, s => s = ⟨gs, [], none⟩
+  | .changed, s => g ∈ gs ∧ s = ⟨gs.filter (· ≠ g), [], none⟩
+  | .announced, s => g ∈ gs ∧ s = ⟨gs.filter (· ≠ g), [removedNote g], none⟩
+
+def RemGood (gs : List String) (g : String) (s : G) : Prop :=
+  (s.notes = [removedNote g] ∧ g ∈ gs ∧ s.groups = gs.filter (· ≠ g) ∧ s.res ≠ some (.ret false)) ∨
+  (s.notes = [] ∧ s.groups = gs ∧ s.res ≠ some (.ret true))
+
+theorem okRem_sound (gs : List String) (g : String) (fault : Option String) (u : Bool) :
+    ∀ (L : List Step) (ph : Phase) (s : G), okRem ph L = true → RemRel gs g ph s →
+      RemGood gs g (run g fault u L s) := by
+  intro L
+  induction L with
+  | nil =>
+    intro ph s hok hrel
+    cases ph <;> simp [okRem] at hok <;> simp [RemRel] at hrel
+    · subst hrel; simp [run, RemGood]
+    · obtain ⟨hm, hrel⟩ := hrel; subst hrel; simp [run, RemGood, hm]
+  | cons st r ih =>
+    intro ph s hok hrel
+    rw [run_cons]
+    cases ph <;> cases st <;> simp [okRem] at hok <;> simp only [RemRel] at hrel
+    · -- untouched, call
+      rename_i f
+      subst hrel
+      by_cases hf : fault = some f
+      · have : step g fault u ⟨gs, [], none⟩ (.call f) = ⟨gs, [], some (.raised f)⟩ := by simp [step, hf]
+        rw [this, run_done _ _ _ _ _ (by simp)]
+        simp [RemGood]
+      · have : step g fault u ⟨gs, [], none⟩ (.call f) = ⟨gs, [], none⟩ := by simp [step, hf]
+        rw [this]
+        exact ih .untouched _ hok rfl
+    · -- untouched, delete
+      subst hrel
+      by_cases hm : g ∈ gs
+      · have : step g fault u ⟨gs, [], none⟩ .delete = ⟨gs.filter (· ≠ g), [], none⟩ := by simp [step, hm]
+        rw [this]
+        exact ih .changed _ hok ⟨hm, rfl⟩
+      · have : step g fault u ⟨gs, [], none⟩ .delete = ⟨gs, [], some (.raised "KeyError")⟩ := by simp [step, hm]
+        rw [this, run_done _ _ _ _ _ (by simp)]
+        simp [RemGood]
+    · -- untouched, ret false
+      subst hrel; subst hok
+      have : step g fault u ⟨gs, [], none⟩ (.ret false) = ⟨gs, [], some (.ret false)⟩ := by simp [step]
+      rw [this, run_done _ _ _ _ _ (by simp)]
+      simp [RemGood]
+    · -- untouched, retIfUnstopped false
+      subst hrel
+      obtain ⟨hb, hok⟩ := hok
+      subst hb
+      by_cases hm : g ∈ gs
+      · cases u
+        · have : step g fault false ⟨gs, [], none⟩ (.retIfUnstopped false) = ⟨gs, [], none⟩ := by simp [step, hm]
+          rw [this]
+          exact ih .untouched _ hok rfl
+        · have : step g fault true ⟨gs, [], none⟩ (.retIfUnstopped false) = ⟨gs, [], some (.ret false)⟩ := by simp [step, hm]
+          rw [this, run_done _ _ _ _ _ (by simp)]
+          simp [RemGood]
+      · have : step g fault u ⟨gs, [], none⟩ (.retIfUnstopped false) = ⟨gs, [], some (.raised "KeyError")⟩ := by simp [step, hm]
+        rw [this, run_done _ _ _ _ _ (by simp)]
+        simp [RemGood]
+    · -- changed, notify
+      obtain ⟨hc, hok⟩ := hok
+      obtain ⟨hm, hrel⟩ := hrel
+      subst hc; subst hrel
+      have : step g fault u ⟨gs.filter (· ≠ g), [], none⟩ (.notify "ProcessGroupRemovedEvent") = ⟨gs.filter (· ≠ g), [removedNote g], none⟩ := by
+        simp [step, removedNote]
+      rw [this]
+      exact ih .announced _ hok ⟨hm, rfl⟩
+    · -- announced, call
+      rename_i f
+      obtain ⟨hm, hrel⟩ := hrel
+      subst hrel
+      by_cases hf : fault = some f
+      · have : step g fault u ⟨gs.filter (· ≠ g), [removedNote g], none⟩ (.call f) = ⟨gs.filter (· ≠ g), [removedNote g], some (.raised f)⟩ := by simp [step, hf]
+        rw [this, run_done _ _ _ _ _ (by simp)]
+        simp [RemGood, hm]
+      · have : step g fault u ⟨gs.filter (· ≠ g), [removedNote g], none⟩ (.call f) = ⟨gs.filter (· ≠ g), [removedNote g], none⟩ := by simp [step, hf]
+        rw [this]
+        exact ih .announced _ hok ⟨hm, rfl⟩
+    · -- announced, ret true
+      obtain ⟨hm, hrel⟩ := hrel
+      subst hrel; subst hok
+      have : step g fault u ⟨gs.filter (· ≠ g), [removedNote g], none⟩ (.ret true) = ⟨gs.filter (· ≠ g), [removedNote g], some (.ret true)⟩ := by simp [step]
+      rw [this, run_done _ _ _ _ _ (by simp)]
+      simp [RemGood, hm]
+
+/-- the regenerated statement sequences are in a truthful order (decided on the generated lists) -/
+theorem add_order_ok : okAdd .untouched addWhenAbsent = true ∧ okNoop addWhenPresent = true := by decide
+theorem remove_order_ok : okRem .untouched removeSteps = true := by decide
+
+/-- **PROCESS_GROUP_ADDED is truthful**: for every table, every group name and every point at which
+    `add_process_group` can fail (an exception out of `after_setuid`, `make_group`, or any other call it
+    makes): either exactly one PROCESS_GROUP_ADDED notification naming the group was raised, the group was not
+    in the table before, is in it at the moment of the notification and afterwards, and the call did not answer
+    False -- or no notification was raised, the table is unchanged and the call did not answer True. -/
+theorem add_truthful (gs : List String) (g : String) (fault : Option String) :
+    ((addGroup gs g fault).notes = [⟨"ProcessGroupAddedEvent", g, true⟩] ∧ g ∉ gs ∧
+        (addGroup gs g fault).groups = gs ++ [g] ∧ (addGroup gs g fault).res ≠ some (.ret false)) ∨
+    ((addGroup gs g fault).notes = [] ∧ (addGroup gs g fault).groups = gs ∧
+        (addGroup gs g fault).res ≠ some (.ret true)) := by
+  unfold addGroup
+  by_cases hg : g ∈ gs
+  · right
+    rw [if_pos hg]
+    exact okNoop_sound gs g fault false _ add_order_ok.2
+  · rw [if_neg hg]
+    rcases okAdd_sound gs g fault false hg _ .untouched _ add_order_ok.1 rfl with h | h
+    · left; exact ⟨h.1, hg, h.2.1, h.2.2⟩
+    · right; exact h
+
+/-- **PROCESS_GROUP_REMOVED is truthful**: either exactly one PROCESS_GROUP_REMOVED notification naming the group
+    was raised, the group was in the table before, is no longer in it at the moment of the notification nor
+    afterwards, and the call did not answer False -- or no notification was raised, the table is unchanged and
+    the call did not answer True (processes still running, unknown name, exception out of `before_remove`). -/
+theorem remove_truthful (gs : List String) (g : String) (unstopped : Bool) (fault : Option String) :
+    ((removeGroup gs g unstopped fault).notes = [⟨"ProcessGroupRemovedEvent", g, false⟩] ∧ g ∈ gs ∧
+        (removeGroup gs g unstopped fault).groups = gs.filter (· ≠ g) ∧
+        (removeGroup gs g unstopped fault).res ≠ some (.ret false)) ∨
+    ((removeGroup gs g unstopped fault).notes = [] ∧ (removeGroup gs g unstopped fault).groups = gs ∧
+        (removeGroup gs g unstopped fault).res ≠ some (.ret true)) :=
+  okRem_sound gs g fault unstopped _ .untouched _ remove_order_ok rfl
+
+/-- the successful cases are reachable: an addition without fault and a removal of a stopped group -/
+example : (addGroup ["a"] "b" none).notes = [⟨"ProcessGroupAddedEvent", "b", true⟩] ∧ (addGroup ["a"] "b" none).res = some (.ret true) := by decide
+example : (addGroup ["a"] "b" (some "make_group")).notes = [] ∧ (addGroup ["a"] "b" (some "make_group")).groups = ["a"] := by decide
+example : (removeGroup ["a", "b"] "a" false none).notes = [⟨"ProcessGroupRemovedEvent", "a", false⟩] ∧ (removeGroup ["a", "b"] "a" false none).groups = ["b"] := by decide
+
+theorem believe_append (v : List String) (a b : List Note) : believe v (a ++ b) = believe (believe v a) b := by
+  induction a generalizing v with
+  | nil => rfl
+  | cons n r ih => simp only [List.cons_append, believe, ih]
+
+theorem applyOp_view (gs : List String) (op : Op) : believe gs (applyOp gs op).notes = (applyOp gs op).groups := by
+  cases op with
+  | add g f =>
+    rcases add_truthful gs g f with h | h
+    · simp [applyOp, h.1, h.2.1, h.2.2.1, believe]
+    · simp [applyOp, h.1, h.2.1, believe]
+  | remove g u f =>
+    rcases remove_truthful gs g u f with h | h
+    · simp [applyOp, h.1, h.2.2.1, believe]
+    · simp [applyOp, h.1, h.2.1, believe]
+
+/-- **group notifications and the table are in bijection over every history**: for every history of additions
+    and removals (failed additions, retries, refused removals, exceptions at any call included), a subscriber
+    that applies the PROCESS_GROUP_ADDED / _REMOVED notifications, in order, to the table it knew at the start
+    holds exactly `supervisord.process_groups` at the end -/
+theorem group_history_view (ops : List Op) : ∀ gs : List String,
+    believe gs (runHist gs ops).2 = (runHist gs ops).1 := by
+  induction ops with
+  | nil => intro gs; rfl
+  | cons op r ih =>
+    intro gs
+    simp only [runHist, believe_append, applyOp_view, ih]
+
+/-! ### output notifications while a child is reaped -/
+
+/-- every output event the dispatcher raises is created with the process's current pid, and the event classes
+    keep the pid they were given (decided over the regenerated tables) -/
+theorem output_events_carry_process_pid :
+    (∀ s ∈ outputEventSites, s.2.2.1 = "self.process" ∧ s.2.2.2 = "self.process.pid") ∧
+    processLogEventCtorParams = ["process", "pid", "data"] ∧ ("pid", "pid") ∈ processLogEventCtorBinds ∧
+    processCommunicationEventCtorParams = ["process", "pid", "data"] ∧ ("pid", "pid") ∈ processCommunicationEventCtorBinds ∧
+    Sv.Gen.Envelope.processLogArgs[2]? = some "self.pid" ∧ Sv.Gen.Envelope.processCommArgs[2]? = some "self.pid" := by
+  decide
+
+/-- **output is announced with the writer's pid, before the exit**: for every dispatcher configuration and state,
+    every pending pipe content and every pid, `Subprocess.finish` raises: first the notifications for what `drain()`
+    reads, then those for the output still held back for token matching (`record_output(eof=True)`), every one of
+    them carrying the pid of the child being reaped; then (if the exit is announced at all) the PROCESS_STATE
+    notification, with the same pid; only then is `self.pid` reset and are the dispatchers discarded. -/
+theorem finish_truthful (c : OutDisp.Cfg) (pending : Bytes) (announce : Bool) (pid : Int) (d : OutDisp.S) :
+    let dr := drainD c pending { d with outs := [] }
+    let fl := flushD c { dr with outs := [] }
+    (finish c pending announce ⟨pid, some d, []⟩).notes =
+        (dr.outs ++ fl.outs).filterMap (stamp pid) ++ (if announce then [.state pid] else []) ∧
+    (finish c pending announce ⟨pid, some d, []⟩).pid = 0 ∧
+    (finish c pending announce ⟨pid, some d, []⟩).disp = none := by
+  cases announce <;> simp [finish, finishSteps, fstep, withDisp, List.filterMap_append]
+
+/-- every notification of a reaping names the reaped child's pid, and no output notification follows the state one -/
+def fpid : FNote → Int
+  | .plog p _ _ => p
+  | .comm p _ => p
+  | .state p => p
+
+theorem finish_pids (c : OutDisp.Cfg) (pending : Bytes) (announce : Bool) (pid : Int) (d : OutDisp.S) :
+    ∀ n ∈ (finish c pending announce ⟨pid, some d, []⟩).notes, fpid n = pid := by
+  intro n hn
+  rw [(finish_truthful c pending announce pid d).1] at hn
+  simp only [List.mem_append, List.mem_filterMap] at hn
+  rcases hn with ⟨o, _, ho⟩ | hn
+  · cases o <;> simp [stamp] at ho <;> subst ho <;> rfl
+  · cases announce <;> simp at hn
+    subst hn; rfl
+
+-- non-vacuity: capture and events on; "bye" arrives with the reaping read, is held back for token matching, and is
+-- announced by the flush with the child's pid before the exit
+example : (finish ⟨10, true, false, true, true, false, Sv.Gen.OutDisp.stdout_BEGIN, Sv.Gen.OutDisp.stdout_END⟩
+    [98, 121, 101] true ⟨4242, some OutDisp.init, []⟩).notes = [.plog 4242 true [98, 121, 101], .state 4242] := by decide
+
+/-! ### PROCESS_STATE notifications carry the values at the moment of the change -/
+
+/-- **one notification per change, with the values at the change**: `change_state(new)` on a process in another
+    state raises exactly one notification (when the new state has an event class): it names the state left, and its
+    `tries` is the retry counter *after* the increment made on entering BACKOFF, its pid the pid at that moment; a
+    "change" to the current state raises nothing and changes nothing. -/
+theorem change_state_truthful (p : PS) (new : Int) (expected : Bool) (bc : Int) :
+    (new ≠ p.state →
+      (changeState p new expected true bc).notes =
+        [⟨p.state, new, p.backoff + (if new = bc then 1 else 0), p.pid, expected⟩] ∧
+      (changeState p new expected true bc).p.state = new) ∧
+    (new ≠ p.state → (changeState p new expected false bc).notes = []) ∧
+    (new = p.state → ∀ hc, (changeState p new expected hc bc).notes = [] ∧ (changeState p new expected hc bc).p = p) := by
+  refine ⟨?_, ?_, ?_⟩
+  · intro h
+    by_cases hb : new = bc
+    · subst hb; simp [changeState, changeStateSteps, cstep, h]
+    · simp [changeState, changeStateSteps, cstep, h, hb]
+  · intro h
+    by_cases hb : new = bc
+    · subst hb; simp [changeState, changeStateSteps, cstep, h]
+    · simp [changeState, changeStateSteps, cstep, h, hb]
+  · intro h hc
+    simp [changeState, changeStateSteps, cstep, h]
+
+example : (changeState ⟨10, 2, 0⟩ 30 true true 30).notes = [⟨10, 30, 3, 0, true⟩] := by decide
+end notify
 
 end Sv.Props.C11
